@@ -263,6 +263,63 @@ BParJobFails(C, j, J, O) ==
                          : k \in hit} : q \in 1..Len(J.routes)}
     ELSE {} }
 
+\* ------------------------------------------------------------------------------------------------------
+\* two-level cases: {id, shape, dim, space, deg, fperm, cperm, G, fine: mesh, coarse: mesh, nf, nc, fd, cd, par, pats, coup}
+\* ------------------------------------------------------------------------------------------------------
+IsTwoLevel(C) == "fine" \in DOMAIN C
+MeshOf(C, M) == [shape |-> C.shape, dim |-> C.dim, n |-> M.n, X |-> M.X, vc |-> M.vc, ec |-> M.ec, fc |-> M.fc]
+\* x lies in the closure of the (convex) cell with corner points P  (2D: any straight-sided cell; 3D: simplex, axis-parallel box)
+InClosure(shape, dim, P, x) ==
+  IF dim = 2 THEN
+    LET Q == IF shape = "simplex" THEN <<P[1], P[2], P[3]>> ELSE <<P[1], P[2], P[4], P[3]>>      \* counter-clockwise
+    IN \A k \in 1..Len(Q) : TriD(Q[k], Q[(k % Len(Q)) + 1], x) >= 0
+  ELSE IF shape = "simplex" THEN
+    \A k \in 1..4 : Det3(Diff([P EXCEPT ![k] = x][2], [P EXCEPT ![k] = x][1]), Diff([P EXCEPT ![k] = x][3], [P EXCEPT ![k] = x][1]),
+                          Diff([P EXCEPT ![k] = x][4], [P EXCEPT ![k] = x][1])) >= 0
+  ELSE \A d \in 1..3 : (\E k \in 1..8 : P[k][d] <= x[d]) /\ (\E k \in 1..8 : P[k][d] >= x[d])
+
+TwoLevelVerdict(C) ==
+  LET MF == MeshOf(C, C.fine)   MC == MeshOf(C, C.coarse)
+      nfc == NC(MF)   ncc == NC(MC)
+      \* the parent certificate is checked: every vertex of a fine cell lies in the closure of its parent, cells are not
+      \* degenerate, every coarse cell has the number of children of its shape  =>  par is the refinement relation
+      parok == /\ Len(C.par) = nfc /\ \A f \in 1..nfc : C.par[f] \in 0..(ncc - 1)
+               /\ \A f \in 1..nfc : \A k \in 1..Len(C.fine.vc[f]) :
+                     InClosure(C.shape, C.dim, CellPts(MC, C.par[f] + 1), Pt(MF, C.fine.vc[f][k]))
+               /\ \A c \in 0..(ncc - 1) : Cardinality({f \in 1..nfc : C.par[f] = c}) = NumChildren(C.shape, C.dim)
+               /\ (C.dim = 2 => (\A f \in 1..nfc : Convex2D(MF, f)) /\ (\A c \in 1..ncc : Convex2D(MC, c)))
+               /\ (C.dim = 3 /\ C.shape = "hypercube" => \A c \in 1..ncc : IsBoxCell(MC, c))
+               /\ (C.dim = 3 /\ C.shape = "simplex" => \A c \in 1..ncc : CornersPositive3D(MC, c))
+  IN
+  IF ~(<<C.fperm, C.cperm>> \in PermPairsFull /\ C.space \in Spaces /\ C.deg >= TwoLevelDeg(C.space, C.shape))
+    THEN Fail(FALSE, "MACHINERY:JobNotInCatalogue", -1, "")
+  ELSE IF ~parok THEN Fail(FALSE, "MACHINERY:ParentCertificate", -1, "")
+  ELSE
+    LET FD == TLCEval([f \in 1..nfc |-> DofSet(MF, C.space, f)])
+        CD == TLCEval([c \in 1..ncc |-> DofSet(MC, C.space, c)])
+        nf == NumDofs(MF, C.space)   nc == NumDofs(MC, C.space)
+        FCellsAt == TLCEval([i \in 0..(nf - 1) |-> {f \in 1..nfc : i \in FD[f]}])
+        \* Pat_2lvl row-wise: the coarse dofs of the parents of the fine cells that carry fine dof i
+        Row == TLCEval([i \in 0..(nf - 1) |-> UNION {CD[C.par[f] + 1] : f \in FCellsAt[i]}])
+        one(g) == IF ~CsrValid(g, nf, nc) THEN Fail(FALSE, "PatternValid", -1, g.kind)
+                  ELSE Fail({i \in 0..(nf - 1) : ~(StrictlyAscending(RowOf(g, i)) /\ RangeA(RowOf(g, i)) = Row[i])} = {},
+                            "PatternEqualsSpec", -1, g.kind)
+    IN UNION {
+         Fail(C.nf = nf /\ C.nc = nc, "NumDofs", -1, ""),
+         Fail(\A f \in 1..nfc : RangeA(C.fd[f]) = FD[f] /\ Len(C.fd[f]) = Cardinality(FD[f]), "DofSetContract", -1, "fine"),
+         Fail(\A c \in 1..ncc : RangeA(C.cd[c]) = CD[c] /\ Len(C.cd[c]) = Cardinality(CD[c]), "DofSetContract", -1, "coarse"),
+         UNION {one(C.pats[k]) : k \in 1..Len(C.pats)},
+         Fail({"2lvl", "intermesh"} \subseteq {C.pats[k].kind : k \in 1..Len(C.pats)}, "MACHINERY:PatternNotDumped", -1, ""),
+         IF C.coup.done THEN
+           \* every (i,j) that receives a value from GridTransfer::assemble_prolongation lies in Pat_2lvl and in the real pattern,
+           \* and assembling into the real pattern gives the values of the assembly into a full matrix
+           Fail(\A k \in 1..Len(C.coup.pairs) : C.coup.pairs[k][1] \in 0..(nf - 1) /\ C.coup.pairs[k][2] \in Row[C.coup.pairs[k][1]],
+                "CouplingsInPattern", -1, "2lvl")
+           \cup Fail(C.coup.real, "CouplingsInRealPattern", -1, "2lvl")
+           \cup Fail(C.coup.real => C.coup.bit, "FullPatternSameValues", -1, "2lvl")
+           \cup Fail(Len(C.coup.pairs) > 0, "MACHINERY:NoCouplings", -1, "")
+         ELSE {} }
+
 Verdict(C) ==
   IF ~ClassOK(C) THEN Fail(FALSE, "MACHINERY:MeshClass", -1, C.class)
   ELSE
@@ -283,5 +340,6 @@ NUndec(C) == SumA([j \in 1..Len(C.jobs) |-> IF C.jobs[j].spec.k \in {"blk", "gd"
                     ELSE Cardinality({k \in 1..Len(C.jobs[j].obs.ids) : ~C.jobs[j].obs.ids[k].dec})])
 
 CEmit == LET C == Cases[ci] IN
+  IF IsTwoLevel(C) THEN PrintT(ToJson([id |-> C.id, fails |-> SetToSeqA(TwoLevelVerdict(C)), nids |-> 0, nundec |-> 0])) ELSE
   PrintT(ToJson([id |-> C.id, fails |-> SetToSeqA(Verdict(C)), nids |-> NIds(C), nundec |-> NUndec(C)]))
 =============================================================================
